@@ -40,17 +40,19 @@ theorem mstep_455 (f : Flavour) (st : MState) (o : Obs) (hp : st.phase ≠ .clos
     (h1 : o.hangup = false) (h2 : o.nresp = 1) (h3 : o.cseqOk = true) (h4 : o.sidOk = true)
     (hm1 : o.method ≠ .teardown) (hm2 : o.method ≠ .options) (hcl : o.closed = false) (hcode : o.code = 455)
     (hc : o.consumers = st.consumers) (hpub : o.published = st.published)
-    (hleg : (o.method = .describe ∨ o.method = .announce ∨ o.method = .setup ∨ (o.method = .play ∧ f = .rtsp)) →
-      legal f st.phase o.method = false) :
+    (hleg : (o.method = .describe ∨ o.method = .announce ∨ o.method = .setup ∨ (o.method = .play ∧ f = .rtsp) ∨
+        (o.method = .pause ∧ f = .wsp)) → legal f st.phase o.method = false) :
     mstep f st o = .ok st := by
-  have hl : ((o.method == .describe || o.method == .announce || o.method == .setup || (o.method == .play && f == .rtsp)) &&
-      legal f st.phase o.method) = false := by
-    by_cases hx : (o.method = .describe ∨ o.method = .announce ∨ o.method = .setup ∨ (o.method = .play ∧ f = .rtsp))
+  have hl : ((o.method == .describe || o.method == .announce || o.method == .setup || (o.method == .play && f == .rtsp) ||
+      (o.method == .pause && f == .wsp)) && legal f st.phase o.method) = false := by
+    by_cases hx : (o.method = .describe ∨ o.method = .announce ∨ o.method = .setup ∨ (o.method = .play ∧ f = .rtsp) ∨
+        (o.method = .pause ∧ f = .wsp))
     · rw [hleg hx]; simp
-    · have : (o.method == .describe || o.method == .announce || o.method == .setup || (o.method == .play && f == .rtsp)) = false := by
+    · have : (o.method == .describe || o.method == .announce || o.method == .setup || (o.method == .play && f == .rtsp) ||
+          (o.method == .pause && f == .wsp)) = false := by
         simp only [not_or, not_and] at hx
         simp [hx.1, hx.2.1, hx.2.2.1]
-        exact hx.2.2.2
+        exact ⟨hx.2.2.2.1, hx.2.2.2.2⟩
       rw [this]; simp
   simp [mstep, mstepResp, mstepState, hp, h1, h2, h3, h4, hm1, hm2, hcl, hcode, hc, hpub, hl]
 
@@ -391,11 +393,12 @@ theorem step_sim (cfg : Cfg) (hcfg : cfgOk cfg = true) (s : Sess) (r : Req) (e :
           intro hm
           have hg' : refGate s.status r.method = false := by simpa using hg
           have hm' : r.method = .describe ∨ r.method = .announce ∨ r.method = .setup ∨ r.method = .play := by
-            rcases hm with hm | hm | hm | ⟨hm, _⟩
+            rcases hm with hm | hm | hm | ⟨hm, _⟩ | ⟨_, hf⟩
             · exact Or.inl hm
             · exact Or.inr (Or.inl hm)
             · exact Or.inr (Or.inr (Or.inl hm))
             · exact Or.inr (Or.inr (Or.inr hm))
+            · cases hf
           show legal .rtsp (absPhase s) r.method = false
           rcases hm' with hm | hm | hm | hm <;>
             rw [hm] at hg' ⊢ <;>
